@@ -1,17 +1,497 @@
-"""Symbolic (unbounded) collections: sets, maps, generators over uninterpreted element sorts."""
+"""Symbolic (unbounded) collections over uninterpreted element sorts.
+
+ * SColl  — immutable finite collection given by a membership array  elem -> Bool
+            (lists are modelled as the SET of their elements: see the note in exec_for)
+ * SSet   — mutable Python `set`
+ * SDict  — mutable Python `dict`; domain array + one or more value columns, values are
+            re-wrapped by a codec (so a dict of dicts / of tuples of sets is a dict whose
+            columns are arrays of arrays)
+ * SGen   — lazy generator  `f(x) for x in coll`
+ * STup   — `*args` tuple bound from a starred SGen
+Quantified facts are generated only where Python needs them (emptiness, subset, equality).
+"""
 from __future__ import annotations
 
 import z3
 
-from .values import Sym, SInt, SBool, SOpq, Unsupported, lift, to_z3
+from .values import (Sym, SInt, SBool, SOpq, SObj, Builtin, Unsupported, PyRaise, lift, to_z3)
+
+
+class sampling:
+    """Context: the code inside is evaluated for an arbitrary element satisfying `guard`."""
+
+    def __init__(self, it, guard):
+        self.it, self.guard = it, guard
+
+    def __enter__(self):
+        g = getattr(self.it.ctx, "guards", None)
+        if g is None:
+            g = self.it.ctx.guards = []
+        g.append(self.guard)
+
+    def __exit__(self, *a):
+        self.it.ctx.guards.pop()
+
+
+class Elem:
+    """How elements of a z3 sort appear as interpreter values."""
+
+    def __init__(self, sort, kind):
+        self.sort = sort
+        self.kind = kind
+
+    def wrap(self, t):
+        return SOpq(t, self.kind)
+
+    def unwrap(self, v):
+        if isinstance(v, SOpq) and v.kind == self.kind:
+            return v.t
+        raise Unsupported(f"expected a {self.kind}, got {v!r}")
+
+    def fresh(self, it, base=None):
+        return z3.Const(it.ctx.fresh_name(base or self.kind.lower()), self.sort)
+
+
+class SColl(Sym):
+    def __init__(self, elem: Elem, arr):
+        self.elem = elem
+        self.arr = arr  # z3 Array(elem.sort -> Bool)
+
+    t = property(lambda self: self.arr)
+
+    def member(self, t):
+        return z3.simplify(z3.Select(self.arr, t))
+
+    def contains(self, it, x):
+        if not (isinstance(x, SOpq) and x.kind == self.elem.kind):
+            return False
+        return lift(self.member(x.t))
+
+    def nonempty(self, it):
+        x = z3.Const("ne!" + self.elem.kind, self.elem.sort)
+        return lift(z3.Exists([x], z3.Select(self.arr, x)))
+
+    def truth(self, it):
+        return self.nonempty(it)
+
+    def arbitrary(self, it, also=None):
+        """A fresh element assumed to be a member (caller must know the collection is non-empty)."""
+        c = self.elem.fresh(it)
+        it.ctx.assume(z3.Select(self.arr, c))
+        if also is not None:
+            it.ctx.assume(also(c))
+        return self.elem.wrap(c)
+
+    def length(self, it):
+        return SLen(self)
+
+    def iterate(self, it):
+        raise Unsupported("concrete iteration over a symbolic collection (loop needs a contract)")
+
+    def union_arr(self, other):
+        x = z3.Const("u!" + self.elem.kind, self.elem.sort)
+        return z3.Lambda([x], z3.Or(z3.Select(self.arr, x), z3.Select(other.arr, x)))
+
+    def binop(self, it, op, other, reflected):
+        if isinstance(other, (list, tuple, set, frozenset)) and len(other) == 0 and op in ("+", "|"):
+            return type(self)(self.elem, self.arr) if not isinstance(self, SSet) else SSet(self.elem, self.arr)
+        if not isinstance(other, SColl) or other.elem.kind != self.elem.kind:
+            return NotImplemented
+        x = z3.Const("b!" + self.elem.kind, self.elem.sort)
+        a, b = (other, self) if reflected else (self, other)
+        cls = SSet if isinstance(self, SSet) or isinstance(other, SSet) else SColl
+        if op in ("+", "|"):
+            return cls(self.elem, z3.Lambda([x], z3.Or(z3.Select(a.arr, x), z3.Select(b.arr, x))))
+        if op == "&":
+            return cls(self.elem, z3.Lambda([x], z3.And(z3.Select(a.arr, x), z3.Select(b.arr, x))))
+        if op == "-":
+            return cls(self.elem, z3.Lambda([x], z3.And(z3.Select(a.arr, x), z3.Not(z3.Select(b.arr, x)))))
+        return NotImplemented
+
+    def cmp(self, it, op, other):
+        if isinstance(other, (set, frozenset, list, tuple)) and len(other) == 0:
+            other = SColl(self.elem, z3.K(self.elem.sort, z3.BoolVal(False)))
+        if not isinstance(other, SColl):
+            if op == "==":
+                return False
+            if op == "!=":
+                return True
+            return NotImplemented
+        x = z3.Const("c!" + self.elem.kind, self.elem.sort)
+        eq = z3.ForAll([x], z3.Select(self.arr, x) == z3.Select(other.arr, x))
+        if op == "==":
+            return lift(eq)
+        if op == "!=":
+            return lift(z3.Not(eq))
+        if op == "<=":
+            return lift(z3.ForAll([x], z3.Implies(z3.Select(self.arr, x), z3.Select(other.arr, x))))
+        if op == ">=":
+            return lift(z3.ForAll([x], z3.Implies(z3.Select(other.arr, x), z3.Select(self.arr, x))))
+        return NotImplemented
+
+    def to_set(self, it):
+        return SSet(self.elem, self.arr)
+
+    def filtered(self, pred):
+        x = z3.Const("f!" + self.elem.kind, self.elem.sort)
+        return SColl(self.elem, z3.Lambda([x], z3.And(z3.Select(self.arr, x), pred(x))))
+
+    def getattr(self, it, name):
+        return coll_method(it, self, name)
+
+    def __repr__(self):
+        return f"{type(self).__name__}<{self.elem.kind}>({self.arr})"
+
+
+class SLen(Sym):
+    """len() of a symbolic collection: only comparisons with 0 are supported."""
+
+    def __init__(self, coll):
+        self.coll = coll
+        self.t = None
+
+    def cmp(self, it, op, other):
+        if other != 0 or isinstance(other, bool):
+            raise Unsupported("len(symbolic collection) compared with a non-zero value")
+        ne = self.coll.nonempty(it)
+        neg = lift(z3.Not(ne.t)) if isinstance(ne, SBool) else (not ne)
+        if op in (">", "!="):
+            return ne
+        if op in ("==", "<="):
+            return neg
+        if op == ">=":
+            return True
+        if op == "<":
+            return False
+        return NotImplemented
+
+    def truth(self, it):
+        return self.coll.nonempty(it)
+
+
+class SSet(SColl):
+    def note(self, it):
+        m = getattr(it.ctx, "mutated", None)
+        if m is not None:
+            m.add(id(self))
+
+    def copy(self, it=None):
+        return SSet(self.elem, self.arr)
+
+
+def coll_method(it, c: SColl, name):
+    e = c.elem
+
+    def need_set():
+        if not isinstance(c, SSet):
+            raise PyRaise(it.make_exc("AttributeError", f"'list' object has no attribute '{name}'"))
+
+    def as_coll(o):
+        if isinstance(o, SColl):
+            return o
+        if isinstance(o, SDict):
+            return o.keyset()
+        if isinstance(o, (list, tuple, set, frozenset)):
+            arr = z3.K(e.sort, z3.BoolVal(False))
+            for x in o:
+                arr = z3.Store(arr, e.unwrap(x), z3.BoolVal(True))
+            return SColl(e, arr)
+        if isinstance(o, SGen):
+            return o.as_coll(it)
+        raise Unsupported(f"collection argument {o!r}")
+    if name == "add":
+        need_set()
+
+        def add(x):
+            c.arr = z3.Store(c.arr, e.unwrap(x), z3.BoolVal(True))
+            c.note(it)
+        return Builtin("set.add", add)
+    if name in ("update", "extend"):
+        def update(*others):
+            if name == "update":
+                need_set()
+            for o in others:
+                c.arr = c.union_arr(as_coll(o))
+            if isinstance(c, SSet):
+                c.note(it)
+        return Builtin("set.update", update)
+    if name == "append":
+        def append(x):
+            c.arr = z3.Store(c.arr, e.unwrap(x), z3.BoolVal(True))
+        return Builtin("list.append", append)
+    if name in ("discard", "remove"):
+        def discard(x):
+            t = e.unwrap(x)
+            if name == "remove" and it.ctx.branch(z3.Not(z3.Select(c.arr, t))):
+                it.throw("KeyError", x)
+            c.arr = z3.Store(c.arr, t, z3.BoolVal(False))
+            if isinstance(c, SSet):
+                c.note(it)
+        return Builtin("set.discard", discard)
+    if name == "pop":
+        need_set()
+
+        def pop():
+            ne = c.nonempty(it)
+            if not it.truth(ne):
+                it.throw("KeyError", "pop from an empty set")
+            x = e.fresh(it, "popped")
+            it.ctx.assume(z3.Select(c.arr, x))
+            c.arr = z3.Store(c.arr, x, z3.BoolVal(False))
+            c.note(it)
+            return e.wrap(x)
+        return Builtin("set.pop", pop)
+    if name == "copy":
+        return Builtin("copy", lambda: SSet(e, c.arr) if isinstance(c, SSet) else SColl(e, c.arr))
+    if name in ("union", "intersection", "difference"):
+        op = {"union": "|", "intersection": "&", "difference": "-"}[name]
+
+        def f(*others):
+            r = SSet(e, c.arr)
+            for o in others:
+                r = r.binop(it, op, as_coll(o), False)
+            return SSet(e, r.arr)
+        return Builtin(f"set.{name}", f)
+    if name == "issubset":
+        return Builtin("issubset", lambda o: c.cmp(it, "<=", as_coll(o)))
+    if name == "issuperset":
+        return Builtin("issuperset", lambda o: c.cmp(it, ">=", as_coll(o)))
+    if name == "isdisjoint":
+        def disj(o):
+            x = z3.Const("d!" + e.kind, e.sort)
+            return lift(z3.ForAll([x], z3.Not(z3.And(z3.Select(c.arr, x), z3.Select(as_coll(o).arr, x)))))
+        return Builtin("isdisjoint", disj)
+    if name == "keys":
+        return Builtin("keys", lambda: c)
+    raise Unsupported(f"method {name} of a symbolic {type(c).__name__}")
+
+
+class Codec:
+    """(list of z3 terms) <-> interpreter value, for dict values."""
+
+    def __init__(self, sorts, wrap, unwrap):
+        self.sorts, self.wrap, self.unwrap = sorts, wrap, unwrap
+
+
+def elem_codec(elem: Elem):
+    return Codec([elem.sort], lambda ts: elem.wrap(ts[0]), lambda v: [elem.unwrap(v)])
+
+
+def set_codec(elem: Elem):
+    return Codec([z3.ArraySort(elem.sort, z3.BoolSort())], lambda ts: SSet(elem, ts[0]),
+                 lambda v: [_as_arr(v, elem)])
+
+
+def _as_arr(v, elem):
+    if isinstance(v, SColl):
+        return v.arr
+    if isinstance(v, SDict):
+        return v.dom
+    if isinstance(v, (set, frozenset, list, tuple)):
+        arr = z3.K(elem.sort, z3.BoolVal(False))
+        for x in v:
+            arr = z3.Store(arr, elem.unwrap(x), z3.BoolVal(True))
+        return arr
+    raise Unsupported(f"expected a set of {elem.kind}, got {v!r}")
+
+
+def tuple_codec(*codecs):
+    sorts = [s for c in codecs for s in c.sorts]
+
+    def wrap(ts):
+        out, i = [], 0
+        for c in codecs:
+            out.append(c.wrap(ts[i:i + len(c.sorts)]))
+            i += len(c.sorts)
+        return tuple(out)
+
+    def unwrap(v):
+        if not isinstance(v, tuple) or len(v) != len(codecs):
+            raise Unsupported(f"expected a {len(codecs)}-tuple, got {v!r}")
+        return [t for c, x in zip(codecs, v) for t in c.unwrap(x)]
+    return Codec(sorts, wrap, unwrap)
+
+
+def dict_codec(kelem: Elem, vcodec: Codec):
+    sorts = [z3.ArraySort(kelem.sort, z3.BoolSort())] + [z3.ArraySort(kelem.sort, s) for s in vcodec.sorts]
+
+    def wrap(ts):
+        return SDict(kelem, vcodec, ts[0], list(ts[1:]))
+
+    def unwrap(v):
+        if isinstance(v, dict) and not v:
+            return [z3.K(kelem.sort, z3.BoolVal(False))] + [z3.K(kelem.sort, _default(s)) for s in vcodec.sorts]
+        if not isinstance(v, SDict):
+            raise Unsupported(f"expected a dict over {kelem.kind}, got {v!r}")
+        return [v.dom] + list(v.cols)
+    return Codec(sorts, wrap, unwrap)
+
+
+def _default(sort):
+    return z3.Const("dflt!" + str(sort).replace(" ", "_"), sort)
+
+
+class SDict(Sym):
+    def __init__(self, kelem: Elem, vcodec: Codec, dom, cols):
+        self.kelem, self.vcodec, self.dom, self.cols = kelem, vcodec, dom, list(cols)
+
+    t = property(lambda self: self.dom)
+
+    def keyset(self):
+        return SSet(self.kelem, self.dom)
+
+    def note(self, it):
+        m = getattr(it.ctx, "mutated", None)
+        if m is not None:
+            m.add(id(self))
+
+    def contains(self, it, x):
+        if not (isinstance(x, SOpq) and x.kind == self.kelem.kind):
+            return False
+        return lift(z3.Select(self.dom, x.t))
+
+    def getitem(self, it, k):
+        kt = self.kelem.unwrap(k)
+        if getattr(it.ctx, "guards", None):
+            # evaluated for an ARBITRARY element of a comprehension/generator: no fork; the
+            # absence of a KeyError for every such element becomes an obligation
+            it.ctx.obligate("key-present-for-every-element(no KeyError)", z3.Select(self.dom, kt))
+        elif it.ctx.branch(z3.Not(z3.Select(self.dom, kt))):
+            it.throw("KeyError", k)
+        return self.vcodec.wrap([z3.simplify(z3.Select(c, kt)) for c in self.cols])
+
+    def setitem(self, it, k, v):
+        kt = self.kelem.unwrap(k)
+        vs = self.vcodec.unwrap(v)
+        self.dom = z3.Store(self.dom, kt, z3.BoolVal(True))
+        self.cols = [z3.Store(c, kt, x) for c, x in zip(self.cols, vs)]
+        self.note(it)
+
+    def length(self, it):
+        return SLen(self.keyset())
+
+    def truth(self, it):
+        return self.keyset().nonempty(it)
+
+    def iterate(self, it):
+        raise Unsupported("concrete iteration over a symbolic dict")
+
+    def merged(self, other):
+        """self | other (other wins)"""
+        x = z3.Const("m!" + self.kelem.kind, self.kelem.sort)
+        dom = z3.Lambda([x], z3.Or(z3.Select(self.dom, x), z3.Select(other.dom, x)))
+        cols = [z3.Lambda([x], z3.If(z3.Select(other.dom, x), z3.Select(b, x), z3.Select(a, x)))
+                for a, b in zip(self.cols, other.cols)]
+        return SDict(self.kelem, self.vcodec, dom, cols)
+
+    def binop(self, it, op, other, reflected):
+        if op != "|":
+            return NotImplemented
+        if isinstance(other, dict) and not other:
+            return SDict(self.kelem, self.vcodec, self.dom, self.cols)
+        if not isinstance(other, SDict):
+            return NotImplemented
+        a, b = (other, self) if reflected else (self, other)
+        return a.merged(b)
+
+    def cmp(self, it, op, other):
+        if isinstance(other, dict) and not other:
+            other = SDict(self.kelem, self.vcodec, z3.K(self.kelem.sort, z3.BoolVal(False)), self.cols)
+        if not isinstance(other, SDict):
+            return NotImplemented
+        x = z3.Const("e!" + self.kelem.kind, self.kelem.sort)
+        eq = z3.ForAll([x], z3.And(z3.Select(self.dom, x) == z3.Select(other.dom, x),
+                                    z3.Implies(z3.Select(self.dom, x),
+                                               z3.And(*[z3.Select(a, x) == z3.Select(b, x) for a, b in zip(self.cols, other.cols)]))))
+        if op == "==":
+            return lift(eq)
+        if op == "!=":
+            return lift(z3.Not(eq))
+        return NotImplemented
+
+    def getattr(self, it, name):
+        if name == "keys":
+            return Builtin("dict.keys", lambda: SSet(self.kelem, self.dom))
+        if name == "items":
+            return Builtin("dict.items", lambda: SItems(self))
+        if name == "values":
+            return Builtin("dict.values", lambda: SValues(self))
+        if name == "copy":
+            return Builtin("dict.copy", lambda: SDict(self.kelem, self.vcodec, self.dom, self.cols))
+        if name == "get":
+            def get(k, default=None):
+                kt = self.kelem.unwrap(k)
+                if it.ctx.branch(z3.Select(self.dom, kt)):
+                    return self.vcodec.wrap([z3.Select(c, kt) for c in self.cols])
+                return default
+            return Builtin("dict.get", get)
+        if name == "update":
+            def update(o):
+                m = self.merged(o)
+                self.dom, self.cols = m.dom, m.cols
+                self.note(it)
+            return Builtin("dict.update", update)
+        raise Unsupported(f"dict.{name} on a symbolic dict")
+
+    def inplace_or(self, it, other):
+        m = self.merged(other)
+        self.dom, self.cols = m.dom, m.cols
+        self.note(it)
+        return self
+
+    def __repr__(self):
+        return f"SDict<{self.kelem.kind}>(dom={self.dom})"
+
+
+class SItems(Sym):
+    def __init__(self, d):
+        self.d = d
+        self.t = None
+
+
+class SValues(Sym):
+    def __init__(self, d):
+        self.d = d
+        self.t = None
 
 
 class SGen(Sym):
-    """`f(x) for x in coll` over a symbolic collection (lazy, pure)."""
+    """`fn(x) for x in coll` — fn maps a wrapped element to an interpreter value (may fork/raise)."""
 
-    def __init__(self, coll, fn):
-        self.coll = coll
-        self.fn = fn
+    def __init__(self, coll: SColl, fn, cond=None):
+        self.coll, self.fn, self.cond = coll, fn, cond
+        self.t = None
+
+    def nonempty(self, it):
+        return self.coll.nonempty(it)
+
+    def length(self, it):
+        return SLen(self.coll)
+
+    def sample(self, it, name="g"):
+        """Evaluate the generator body at a fresh ARBITRARY element k (not assumed to be a
+        member): returns (k term, value).  Callers quantify over k."""
+        k = self.coll.elem.fresh(it, name)
+        with sampling(it, z3.Select(self.coll.arr, k)):
+            v = self.fn(self.coll.elem.wrap(k))
+        return k, v
+
+    def as_coll(self, it):
+        raise Unsupported("materialising a symbolic generator of non-elements")
+
+
+class STup(Sym):
+    """The `*args` tuple of a call whose only starred argument was a symbolic generator."""
+
+    def __init__(self, gen: SGen):
+        self.gen = gen
+        self.t = None
+
+    def length(self, it):
+        return SLen(self.gen.coll)
+
+    def truth(self, it):
+        return self.gen.coll.nonempty(it)
 
 
 class SRange(Sym):
@@ -19,9 +499,169 @@ class SRange(Sym):
         raise Unsupported("range() with symbolic bounds")
 
 
+# ----------------------------------------------------------------------------------------
+# comprehensions over symbolic collections
+# ----------------------------------------------------------------------------------------
+def _single_gen(n):
+    return len(n.generators) == 1 and not n.generators[0].is_async
+
+
+def _inner_frame(it, fr):
+    from .interp import Frame
+    inner = Frame(fr.module, fr.func, fr)
+    inner.globals_decl = fr.globals_decl
+    return inner
+
+
+def _bind_and_conds(it, g, inner, src, k):
+    """Bind the comprehension target for element term k of source `src`; return the conjunction
+    of the `if` clauses as a z3 term (must not fork)."""
+    if isinstance(src, SItems):
+        d = src.d
+        val = d.vcodec.wrap([z3.Select(c, k) for c in d.cols])
+        it.assign(g.target, (d.kelem.wrap(k), val), inner)
+    elif isinstance(src, SValues):
+        d = src.d
+        it.assign(g.target, d.vcodec.wrap([z3.Select(c, k) for c in d.cols]), inner)
+    elif isinstance(src, SDict):
+        it.assign(g.target, src.kelem.wrap(k), inner)
+    else:
+        it.assign(g.target, src.elem.wrap(k), inner)
+    conds = []
+    for c in g.ifs:
+        v = it.eval(c, inner)
+        v = it.truth_value(v) if not isinstance(v, (bool, SBool)) else v
+        conds.append(to_z3(v))
+    return z3.And(*conds) if conds else z3.BoolVal(True)
+
+
+def _src_parts(src):
+    if isinstance(src, (SItems, SValues)):
+        return src.d.kelem, src.d.dom
+    if isinstance(src, SDict):
+        return src.kelem, src.dom
+    if isinstance(src, SColl):
+        return src.elem, src.arr
+    return None, None
+
+
 def try_symbolic_genexp(it, n, fr):
-    return None
+    if not _single_gen(n):
+        return None
+    g = n.generators[0]
+    src = it.eval(g.iter, fr)
+    if isinstance(src, STup):
+        # generator over *args built from another generator: compose
+        outer = src.gen
+
+        def fn(elem):
+            inner = _inner_frame(it, fr)
+            it.assign(g.target, outer.fn(elem), inner)
+            return it.eval(n.elt, inner)
+        if g.ifs:
+            raise Unsupported("filtered generator over *args")
+        return SGen(outer.coll, fn)
+    elem, dom = _src_parts(src)
+    if elem is None:
+        return _concrete_genexp(it, n, fr, src)
+    if g.ifs:
+        raise Unsupported("filtered generator expression over a symbolic collection")
+    coll = SColl(elem, dom)
+
+    def fn(e):
+        inner = _inner_frame(it, fr)
+        _bind_and_conds(it, g, inner, src, e.t)
+        return it.eval(n.elt, inner)
+    return SGen(coll, fn)
+
+
+def _concrete_genexp(it, n, fr, src):
+    out = []
+    it.comp(n.generators, 0, fr, lambda f: out.append(it.eval(n.elt, f)), pre=("concrete", src))
+    return out
+
+
+def try_symbolic_listcomp(it, n, fr):
+    """[x for x in coll if cond(x)] -> filtered collection (element order abstracted)."""
+    if not _single_gen(n):
+        return None
+    g = n.generators[0]
+    src = it.eval(g.iter, fr)
+    elem, dom = _src_parts(src)
+    if elem is None:
+        return ("concrete", src)
+    import ast as _ast
+    if not (isinstance(n.elt, _ast.Name) and isinstance(g.target, _ast.Name) and n.elt.id == g.target.id):
+        raise Unsupported("list comprehension over a symbolic collection must be a filter")
+    k = z3.Const("lc!" + elem.kind, elem.sort)
+    inner = _inner_frame(it, fr)
+    with sampling(it, z3.Select(dom, k)):
+        cond = _bind_and_conds(it, g, inner, src, k)
+    return ("sym", SColl(elem, z3.Lambda([k], z3.And(z3.Select(dom, k), cond))))
 
 
 def try_symbolic_dictcomp(it, n, fr):
-    return None
+    if not _single_gen(n):
+        return None
+    g = n.generators[0]
+    src = it.eval(g.iter, fr)
+    elem, dom = _src_parts(src)
+    if elem is None:
+        return ("concrete", src)
+    import ast as _ast
+    k = z3.Const(it.ctx.fresh_name("dc!" + elem.kind), elem.sort)
+    inner = _inner_frame(it, fr)
+    with sampling(it, z3.Select(dom, k)):
+        cond = _bind_and_conds(it, g, inner, src, k)
+        key = it.eval(n.key, inner)
+        if not (isinstance(key, SOpq) and z3.eq(key.t, k)):
+            raise Unsupported("dict comprehension over a symbolic collection must be keyed by the loop variable")
+        with sampling(it, cond):
+            val = it.eval(n.value, inner)
+    vcodec = guess_codec(it, val)
+    cols = [z3.Lambda([k], t) for t in vcodec.unwrap(val)]
+    return ("sym", SDict(elem, vcodec, z3.Lambda([k], z3.And(z3.Select(dom, k), cond)), cols))
+
+
+def guess_codec(it, val):
+    reg = getattr(it.e, "elems", {})
+    if isinstance(val, SOpq):
+        return elem_codec(reg[val.kind])
+    if isinstance(val, SSet) or isinstance(val, SColl):
+        return set_codec(val.elem)
+    if isinstance(val, SDict):
+        return dict_codec(val.kelem, val.vcodec)
+    if isinstance(val, tuple):
+        return tuple_codec(*[guess_codec(it, v) for v in val])
+    if isinstance(val, dict) and not val and hasattr(it.e, "empty_dict_codec"):
+        return it.e.empty_dict_codec
+    raise Unsupported(f"cannot store {val!r} in a symbolic dict")
+
+
+def set_algebra(it, kind, args):
+    """set.union(*xs) / set.intersection(*xs) with a symbolic generator of sets."""
+    if len(args) == 1 and isinstance(args[0], tuple) and args[0] and args[0][0] == "*sym":
+        gen = args[0][1]
+        k, v = gen.sample(it, "su")
+        if not isinstance(v, SColl):
+            raise Unsupported("set algebra over a generator of non-sets")
+        x = z3.Const("sx!" + v.elem.kind, v.elem.sort)
+        body = z3.Select(v.arr, x)
+        mem = z3.Select(gen.coll.arr, k)
+        if kind == "union":
+            return SSet(v.elem, z3.Lambda([x], z3.Exists([k], z3.And(mem, body))))
+        ne = gen.coll.nonempty(it)
+        if not it.truth(ne):
+            it.throw("TypeError", "descriptor 'intersection' of 'set' object needs an argument")
+        return SSet(v.elem, z3.Lambda([x], z3.ForAll([k], z3.Implies(mem, body))))
+    sets = list(args)
+    if not sets:
+        if kind == "union":
+            return set()
+        it.throw("TypeError", "descriptor 'intersection' of 'set' object needs an argument")
+    r = sets[0]
+    if isinstance(r, SColl):
+        r = SSet(r.elem, r.arr)
+    for s in sets[1:]:
+        r = it.binop("|" if kind == "union" else "&", r, s)
+    return r
